@@ -270,6 +270,24 @@ def _aggregates(ctx):
     ctx.ob('C02.1', has, None, okhas,
            'trait test is the subset test (agg & t) == t',
            construct='TraitSet.has')
+    # a node's own trait change refreshes its entry in the parent
+    for tname, tmeth in (('add_child_traits', 'add'),
+                         ('remove_child_traits', 'remove')):
+        tfunc = index.find_method(node_cls, tname)
+        ctx.require(tfunc is not None, 'Node.%s' % tname)
+        tgraph = ctx.cfg(tfunc)
+        hits = K.nodes_calling(tgraph, lambda c, m=tmeth: K.is_meth(c, m) and
+                               K.recv_text(c) == 'self.traits')
+        seen = K.cut_reach(tgraph, tgraph.entry,
+                           cut_node=lambda n: any(n is h for h, _c in hits),
+                           follow_exc=False)
+        ctx.ob('C02.1', tfunc, hits[0][0] if hits else None,
+               bool(hits) and tgraph.exit not in seen,
+               '%s updates the per-child trait entry on every path' % tname,
+               construct='self.traits.%s(...)' % tmeth)
+        for hit, _c in hits[:1]:
+            _parent_call_after(ctx, tfunc, tgraph, hit,
+                               'add_child_traits', 'self')
     labels = index.find_method(node_cls, 'add_labels')
     ctx.require(labels is not None, 'Node.add_labels')
     lgraph = ctx.cfg(labels)
@@ -340,7 +358,9 @@ def _must_call_all(ctx, func, wanted, what):
     for meth, arg in sorted(wanted.items()):
         def hit(node, meth=meth, arg=arg):
             for call in C.node_calls(node):
+                recv = K.recv_text(call) or ''
                 if K.is_meth(call, meth) and (
+                        recv == 'self' or recv.startswith('super(')) and (
                         arg is None or (call.args and
                                         N.txt(call.args[0]) == arg)):
                     return True
@@ -348,7 +368,8 @@ def _must_call_all(ctx, func, wanted, what):
         seen = K.cut_reach(graph, graph.entry, cut_node=hit,
                            follow_exc=False)
         ctx.ob('C02.1', func, None, graph.exit not in seen,
-               '%s: every path calls %s(%s)' % (what, meth, arg or '...'),
+               '%s: every path calls %s(%s) on this node' % (
+                   what, meth, arg or '...'),
                construct='%s -> %s(%s)' % (func.qualname, meth,
                                            arg or '...'))
 
@@ -628,6 +649,16 @@ def _shape_complete(ctx, tracker):
                construct='admission reads app.%s' % '.'.join(chain))
 
 
+def _suggested(put):
+    """Locals of Bucket.put holding the strategy's first suggestion."""
+    out = set()
+    for sub in K.walk_no_nested(put.node):
+        if isinstance(sub, ast.Assign) and isinstance(sub.value, ast.Call) \
+                and K.is_meth(sub.value, 'suggested_node'):
+            out |= set(t.id for t in sub.targets if isinstance(t, ast.Name))
+    return out
+
+
 def _walk(ctx):
     bucket = ctx.index.get_class(K.SCHED, 'Bucket')
     put = bucket.methods.get('put')
@@ -671,6 +702,27 @@ def _walk(ctx):
                    'next child, not by leaving the walk',
                    path=K.describe(path) if path else None)
     ctx.require(count >= 1, 'not-up branch in the walk of Bucket.put')
+    # before the walk the bucket gives up only on the admission predicate
+    # (whose inputs are the maintained aggregates) or with no child at all
+    def prewalk_ok(atom):
+        key = atom.key
+        if key[0] == 'truth' and not key[2] and \
+                key[1].startswith('self.check_app_constraints('):
+            return True
+        return key[0] == 'is' and key[2] == 'None' and key[3] and \
+            key[1] in _suggested(put)
+    path = K.find_path(
+        graph.entry, [graph.exit], cut_node=lambda n: n is head,
+        cut_edge=lambda e: K.edge_establishes(ctx, put, nz, e, prewalk_ok),
+        follow_exc=False)
+    ctx.ob('C02.5', put, path[-1].src if path else head, path is None,
+           'before walking its children the bucket rejects only on the '
+           'admission predicate (verified aggregates) or when it has no '
+           'child' if path is None else
+           'the bucket gives up before walking its children on a test that '
+           'is not the admission predicate: a server below may fit',
+           path=K.describe(path) if path else None,
+           construct='pre-walk exit')
     # the loop is left only by placing or by wrapping around
     facts = N.must_facts(graph, nz)
 
@@ -729,6 +781,35 @@ def _exact_fit(ctx, nz):
                'exact fit is rejected or capacity not compared: %s' %
                sorted(N.show(f) for f in have if f.kind == 'vec'))
     ctx.require(n_true >= 1, 'accepting return of the admission predicate')
+    # the bucket-level predicate rejects only on the verified aggregates
+    app = pred.params()[1]
+
+    def reject_ok(atom):
+        key = atom.key
+        if key[0] == 'in' and not key[3]:
+            return key[1] == '%s.allocation.label' % app and \
+                key[2] == 'self.labels'
+        if key[0] == 'truth' and not key[2]:
+            return key[1] in ('self.traits.has(%s.traits)' % app,
+                              'self.check_app_affinity_limit(%s)' % app)
+        if key[0] == 'vec' and key[1] == 'ANY' and key[2] == '<':
+            return key[3] == 'self.free_capacity' and \
+                key[4] == '%s.demand' % app
+        return False
+    for node in graph.nodes:
+        if node.kind != 'return':
+            continue
+        val = node.ast.value
+        if not (val is None or isinstance(val, ast.Constant) and
+                not val.value):
+            continue
+        ok = K.guarded_by_atoms(ctx, pred, graph, node, reject_ok, nz,
+                                follow_exc=False)
+        ctx.ob('C02.7', pred, node, ok,
+               'a node is pruned only on label / traits / affinity limit / '
+               'ANY(free capacity < demand) - the aggregates maintained as '
+               'upper bounds',
+               construct='reject [%s]' % K.controlling(node, graph))
     lim = index.find_method(node_cls, 'check_app_affinity_limit')
     ctx.require(lim is not None, 'Node.check_app_affinity_limit')
     for sub in K.walk_no_nested(lim.node):
